@@ -126,6 +126,10 @@ def insert_noise(draw, root, n_min=1, n_max=6):
             else:
                 # default namespace switched locally
                 new = node("thing", {"xmlns": "urn:example:thing", "fill": "red"}, c=[node("inner", {"width": "5"})] if kids else [])
+                if kids:
+                    # ... around elements whose LOCAL names are SVG's: a translucent "g" of two "rect"s in a foreign
+                    # namespace is foreign content all the same (no prefix anywhere to give it away)
+                    new = node("g", {"xmlns": "urn:example:thing", "opacity": "0.5"}, c=[node("rect", {"width": "30", "height": "30", "fill": "red"}), node("rect", {"x": "10", "y": "10", "width": "30", "height": "30", "fill": "blue"})])
         elif kind == "anon-symbol":
             new = node("symbol", {"viewBox": "0 0 10 10"}, c=[node("rect", {"width": "10", "height": "10", "fill": "lime"})])
             if draw(st.integers(0, 2)) == 0:
